@@ -14,6 +14,7 @@ Inductive err :=
 | MysqlErr (code : N)  (* MysqlError raised by the parser itself *)
 | KeyErr
 | AssertErr
+| OverflowErr          (* OverflowError: BytesIO.read(n) with n >= 2^63 *)
 | OutOfFuel.           (* never: excluded by Proofs/ParseProofs.v *)
 
 Inductive result (A : Type) := Ok (a : A) | Err (e : err).
@@ -40,7 +41,8 @@ Definition rd_uint_len (d : bytes) : result (N * bytes) :=
 Definition rd_fixed (l : N) (d : bytes) : bytes * bytes := (take l d, drop l d).
 
 Definition rd_str_len (d : bytes) : result (bytes * bytes) :=
-  do (l, r) <- rd_uint_len d; Ok (rd_fixed l r).
+  do (l, r) <- rd_uint_len d;
+  if 2 ^ 63 <=? l then Err OverflowErr else Ok (rd_fixed l r).
 
 (* read_str_null: up to the first NUL; at end of input without NUL: everything that is left *)
 Fixpoint rd_str_null (d : bytes) : bytes * bytes :=
@@ -232,6 +234,12 @@ Definition rd_connect_attrs (d : bytes) : result (list (bytes * bytes) * bytes) 
 Record caps := mk_caps { c_lenenc_auth : bool; c_with_db : bool; c_plugin_auth : bool; c_attrs : bool;
                          c_zstd : bool; c_secure : bool; c_proto41 : bool; c_qa : bool }.
 
+(* bit positions of the Capabilities flags (checked against types.py by Props through Gen/FactsPackets) *)
+Definition caps_of_word (w : N) : caps :=
+  mk_caps (N.testbit w 21) (N.testbit w 3) (N.testbit w 19) (N.testbit w 20)
+          (N.testbit w 26) (N.testbit w 15) (N.testbit w 9) (N.testbit w 27).
+Definition caps_bits_used : list N := [21; 3; 19; 20; 26; 15; 9; 27].
+
 Inductive hsr :=
 | SSLReq (caps_word maxpkt coll : N)
 | HSR (caps_word maxpkt coll : N) (user auth : bytes) (db plugin : option bytes)
@@ -312,12 +320,12 @@ Definition int_in_range (k : nat) (u : bool) (z : Z) : bool :=
   else ((- (256 ^ Z.of_nat k) / 2 <=? z) && (z <? 256 ^ Z.of_nat k / 2))%Z.
 
 Definition wf_param (p : param) : bool :=
-  is_column_type (pm_type p) && (len (pm_name p) <? 2 ^ 64) &&
+  is_column_type (pm_type p) && (len (pm_name p) <? 2 ^ 63) &&
   match pm_val p with
   | PNull => true
   | PInt z => negb (existsb (N.eqb (pm_type p)) string_types) &&
               match int_kind (pm_type p) (pm_unsigned p) with Some (k, u) => int_in_range k u z | None => false end
-  | PStr s => existsb (N.eqb (pm_type p)) string_types && (len s <? 2 ^ 64)
+  | PStr s => existsb (N.eqb (pm_type p)) string_types && (len s <? 2 ^ 63)
   | PF32 raw => (pm_type p =? 4) && (len raw =? 4)
   | PF64 raw => (pm_type p =? 5) && (len raw =? 8)
   end.
